@@ -20,6 +20,37 @@ CHECKS = {
         note="Depth-bounded (6 quick / 7 thorough calls, 2-3 files); scaled constants CHUNK=20 BLOCK=48 (64 KiB names "
              "under compression at production constants); levels/recipients sampled over the same runs; crypto and "
              "brotli bit-level fidelity delegated to C06."),
+    "C02": dict(
+        technique="TLA+ RepairSpec (budget and recovery operators over the Writer model's block layout) evaluated by TLC on "
+                  "traces of real repairs of every truncation of Writer-model archives (trace validation, TraceRepair.tla)",
+        text="Archives are finalized behaviours of the TLC-checked Writer model; the real convert_to_archive is run on every "
+             "prefix length of each, for none/compress/encrypt/both and both modes, its output is re-opened with the real "
+             "reader and projected to (names, lengths, first bad byte, unfinished, status); TLC replays the recorded trace "
+             "against TraceRepair and evaluates every clause of the statement (NoPanic, Opens, NamesOriginal, Prefix, "
+             "FinishedIdentical, EndOnlyIfComplete) on every event.",
+        design_ref="DESIGN.md section 5 C02",
+        note="Scaled constants (CHUNK=20, BLOCK=48, FS_CACHE=5, REPAIR_CACHE=32); a seed-chosen subset of the model's "
+             "scenarios; production constants in thorough windows; harness projection trusted."),
+    "C04": dict(
+        technique="TLA+ RepairSpec with damaged-chunk budgets (EncAuthStrict / EncAuthAsBuilt) evaluated by TLC on traces of "
+                  "real repairs of truncated, bit-flipped and adversarially continued encrypted archives",
+        text="For encrypted Writer-model archives: every truncation, one data-bit and one tag-bit flip in every chunk "
+             "(repaired whole and cut after the damaged chunk), and contents crafted so that the bytes after the damaged "
+             "chunk parse as EndOfFile(hash)+end marker; TLC checks AuthOnlyVerified (nothing beyond the verified prefix, "
+             "no name from beyond it), Exact (contiguous, stops at the first failing chunk), Prefix, EndOnlyIfComplete and "
+             "UnauthAtLeastAuth on every recorded repair.",
+        design_ref="DESIGN.md section 5 C04",
+        note="One damaged chunk per archive; scaled constants; known finding D4 (chunk 0 unauthenticated) is carved out by "
+             "signature in known_findings.json."),
+    "C05": dict(
+        technique="TLA+ CompFailSafe model (nondeterministic brotli decoder, short-reading source) checked by TLC for "
+                  "ZeroOnlyAtEnd/CompleteOnIntact/Sound; TraceRepair clauses CompleteOnIntact, Monotone, Exact validated by TLC on real repair sweeps",
+        text="The fail-safe decompressor's loop is model-checked against every decoder answer and source split; real "
+             "archives whose compressed stream crosses 0..k block edges (both entropies, levels 0..11, many small "
+             "entries) are repaired at every cut and TLC checks completeness on the intact archive, monotonicity over all "
+             "cut pairs (running maximum) and exactness without compression.",
+        design_ref="DESIGN.md section 5 C05",
+        note="Decoder abstracted by a need function; scaled constants; seed-chosen scenarios."),
     "C09": dict(
         technique="TLA+ Writer model with every call enabled in every state (TLC: RefusedIsNoOp action property, "
                   "ShortNeverOk, AllOkThenReadable); complete call graph incl. refused self-loops replayed into the real ArchiveWriter",
@@ -42,6 +73,16 @@ CHECKS = {
         note="Bounded constants (CHUNK=20/32, lengths up to 2-3 chunks); AES-GCM symbolic (chunk verifies iff "
              "original at its index); brotli treated as a block codec with measured compressed sizes; trusted: TLC, "
              "harness projection, hooks."),
+    "C14": dict(
+        technique="Writer-model behaviours with flush() after every call; TLC evaluates FlushedRecoverable (RepairSpec) on the "
+                  "repair of the bytes present at the destination when each flush returned",
+        text="For every Writer-model scenario, layer stacking, level and entropy profile, flush() is called after every "
+             "writer call and the destination is snapshotted when it returns; each snapshot is repaired in both modes and "
+             "TLC checks against the model's block layout that every byte appended before the flush is recovered "
+             "(authenticated mode: every byte in completed chunks).",
+        design_ref="DESIGN.md section 5 C14",
+        note="Scaled constants; with compression under encryption the authenticated bound is not stated by the spec "
+             "(unauthenticated mode is checked)."),
 }
 
 NOT_YET = "check not built yet in this round (planned in DESIGN.md section 9); not claimed until its machinery exists"
